@@ -25,13 +25,13 @@ def runBt (lines : List String) : List String :=
   match lines with
   | [] => ["bad-scenario"]
   | treeLine :: ops =>
-    match Bt.init ((treeLine.drop 5).toString) with   -- drop "tree "
+    match Bt.init treeLine with
     | none => ["bad-tree"]
     | some st =>
       let (_, out) := ops.foldl (fun (acc : Bt.St × List String) op =>
         let (st', o) := Bt.step acc.1 op
-        (st', acc.2 ++ ["> " ++ op] ++ o)) (st, [])
-      out
+        (st', acc.2 ++ ["> " ++ op] ++ o)) (st, ["SPEC " ++ treeStr st.tree])
+      out.map (fun l => String.ofList (l.toList.map (fun c => if c = '\n' then '^' else if c = '\t' then '!' else c)))
 
 def runBb (lines : List String) : List String :=
   let (_, out) := lines.foldl (fun (acc : BB × List String) op =>
